@@ -76,6 +76,10 @@ func (r *Rig) c09Rule(f c09Fault) *util.VerifRule {
 		ru.Action, ru.Raw = "content", ""
 	case "garbage":
 		ru.Action, ru.Raw = "content", "1a2\n"
+	case "blank":
+		ru.Action, ru.Raw = "content", " \n"
+	case "newline":
+		ru.Action, ru.Raw = "content", "\n"
 	}
 	if ru.Op == "w" && ru.Action == "content" {
 		ru.Action, ru.Errno = "fail", "EINVAL"
@@ -279,7 +283,7 @@ func c09Singles(spec RigSpec) []c09Fault {
 		comps = append(comps, "mode-write")
 	}
 	for _, comp := range comps {
-		kinds := []string{"eio", "empty", "garbage"}
+		kinds := []string{"eio", "empty", "garbage", "blank", "newline"}
 		isCmd := (comp == "sensor" && spec.SensorKind == "cmd") || (comp != "sensor" && spec.FanKind == "cmd")
 		if isCmd {
 			kinds = []string{"exit1", "garbage"}
